@@ -17,13 +17,16 @@ import (
 	"time"
 
 	"github.com/conduitio/conduit-commons/database"
+	"github.com/conduitio/conduit-commons/config"
 	"github.com/conduitio/conduit-commons/opencdc"
 	"github.com/conduitio/conduit-connector-protocol/pconnector"
+	sdk "github.com/conduitio/conduit-processor-sdk"
 	"github.com/conduitio/conduit/pkg/connector"
 	"github.com/conduitio/conduit/pkg/foundation/cerrors"
 	"github.com/conduitio/conduit/pkg/foundation/log"
 	"github.com/conduitio/conduit/pkg/pipeline"
 	connectorPlugin "github.com/conduitio/conduit/pkg/plugin/connector"
+	"github.com/conduitio/conduit/pkg/plugin/processor/egress"
 	"github.com/conduitio/conduit/pkg/processor"
 )
 
@@ -56,6 +59,10 @@ type lWorld struct {
 	failures   []FailureEvent
 	starts     int
 	dlqNackAll bool // every DLQ plugin rejects what it is given (DLQ write failure)
+	dlqBlocks  bool // the DLQ plugin never answers
+	procSvc    *processor.Service
+	procs      []*lProcPlugin // every processor plugin dispensed, in order
+	slowOpen   bool           // the next dispensed processor plugin opens slowly (gate)
 	statusCh   chan pipeline.Status // every status write, in order (buffered)
 	// failStatusWrites: how many upcoming writes of failStatus are refused by
 	// the store (the in-memory status changes, as in the real pipeline service)
@@ -152,6 +159,7 @@ type lSrcPlugin struct {
 	runs      int
 	openCh    chan struct{} // one token per Open call
 	failNow   chan struct{} // a token makes the idle stream report a (transient) failure
+	more      chan struct{} // a token makes the idle stream look for new records (w.K grew)
 	lastRun   int           // index of the last record emitted since the last Open (-1: none)
 }
 
@@ -247,6 +255,8 @@ func (s *lSrcStream) Recv() (pconnector.SourceRunResponse, error) {
 		return pconnector.SourceRunResponse{}, ctx.Err()
 	case <-p.failNow:
 		return pconnector.SourceRunResponse{}, cerrors.New("verif: source stream broke (injected)")
+	case <-p.more:
+		return s.Recv()
 	}
 }
 
@@ -310,6 +320,7 @@ type lDestPlugin struct {
 	id        string
 	isDLQ     bool
 	written   []int
+	versions  []string // "version" metadata of the written records (stamped by the processor)
 	acked     map[int]bool
 	nacked    map[int]bool
 	queue     chan opencdc.Record
@@ -390,6 +401,7 @@ func (s *lDestStream) Send(r pconnector.DestinationRunRequest) error {
 	}
 	for _, rec := range r.Records {
 		p.written = append(p.written, s.recordIdx(rec))
+		p.versions = append(p.versions, rec.Metadata["version"])
 	}
 	q := p.queue
 	w.mu.Unlock()
@@ -440,7 +452,7 @@ func (d lDispenser) DispenseDestination() (connectorPlugin.DestinationPlugin, er
 	defer d.w.mu.Unlock()
 	p := d.w.dests[d.id]
 	if p == nil {
-		p = &lDestPlugin{w: d.w, id: d.id, isDLQ: true, acked: map[int]bool{}, nacked: map[int]bool{}, nackAll: d.w.dlqNackAll}
+		p = &lDestPlugin{w: d.w, id: d.id, isDLQ: true, acked: map[int]bool{}, nacked: map[int]bool{}, nackAll: d.w.dlqNackAll, block: d.w.dlqBlocks}
 		d.w.dests[d.id] = p
 	}
 	return p, nil
@@ -467,6 +479,76 @@ func (s lConnectorService) Create(_ context.Context, id string, t connector.Type
 	return c, nil
 }
 func (s lConnectorService) WaitPersisted() { s.w.persister.WaitPendingWrites() }
+
+// ---- processor plugin (only when the pipeline is built with a processor) ----
+
+type lProcPlugin struct {
+	sdk.UnimplementedProcessor
+	w        *lWorld
+	gen      int // 1 for the first plugin dispensed, 2 for the next ...
+	opened   int
+	tornDown int
+	entered  chan struct{} // slow open: closed when Open starts
+	gate     chan struct{} // slow open: Open returns once closed
+}
+
+func (p *lProcPlugin) Configure(context.Context, config.Config) error { return nil }
+func (p *lProcPlugin) Open(ctx context.Context) error {
+	if p.gate != nil {
+		close(p.entered)
+		select {
+		case <-p.gate:
+		case <-ctx.Done():
+			return ctx.Err()
+		}
+	}
+	p.w.mu.Lock()
+	p.opened++
+	p.w.mu.Unlock()
+	return nil
+}
+func (p *lProcPlugin) Process(_ context.Context, recs []opencdc.Record) []sdk.ProcessedRecord {
+	p.w.mu.Lock()
+	dead := p.tornDown > 0
+	p.w.mu.Unlock()
+	out := make([]sdk.ProcessedRecord, len(recs))
+	for i, r := range recs {
+		if dead {
+			out[i] = sdk.ErrorRecord{Error: cerrors.New("verif: processor plugin was torn down")}
+			continue
+		}
+		c := r.Clone()
+		c.Metadata["version"] = strconv.Itoa(p.gen)
+		out[i] = sdk.SingleRecord(c)
+	}
+	return out
+}
+func (p *lProcPlugin) Teardown(context.Context) error {
+	p.w.mu.Lock()
+	p.tornDown++
+	p.w.mu.Unlock()
+	return nil
+}
+
+type lProcRegistry struct{ w *lWorld }
+
+func (r lProcRegistry) NewProcessor(context.Context, string, string, egress.Policy) (sdk.Processor, error) {
+	w := r.w
+	w.mu.Lock()
+	defer w.mu.Unlock()
+	p := &lProcPlugin{w: w, gen: len(w.procs) + 1}
+	if w.slowOpen {
+		w.slowOpen = false
+		p.entered, p.gate = make(chan struct{}), make(chan struct{})
+	}
+	w.procs = append(w.procs, p)
+	return p, nil
+}
+
+// verifStubEncProcessor replaces (*processor.Store).encode under the engine.
+func verifStubEncProcessor(s *processor.Store, i *processor.Instance) ([]byte, error) {
+	return []byte("proc:" + i.ID), nil
+}
 
 type lProcessorService struct{}
 
@@ -518,11 +600,12 @@ type lCfg struct {
 	dlqSize   int
 	dlqTh     int
 	recovery  ErrRecoveryCfg
+	withProc  bool // one pipeline processor "proc1"
 }
 
 func newLifecycleWorld(c lCfg) (*lWorld, *Service) {
 	w := &lWorld{K: c.K, dests: map[string]*lDestPlugin{}, stored: map[string][]byte{}, conns: map[string]*connector.Instance{}, statusCh: make(chan pipeline.Status, 256)}
-	w.src = &lSrcPlugin{w: w, stopAfter: c.stopAfter, served: make(chan struct{}), openCh: make(chan struct{}, 16), failNow: make(chan struct{}, 4)}
+	w.src = &lSrcPlugin{w: w, stopAfter: c.stopAfter, served: make(chan struct{}), openCh: make(chan struct{}, 16), failNow: make(chan struct{}, 4), more: make(chan struct{}, 4)}
 	if c.stopAfter == 0 {
 		close(w.src.served)
 		w.src.served = nil
@@ -546,7 +629,17 @@ func newLifecycleWorld(c lCfg) (*lWorld, *Service) {
 		DLQ: pipeline.DLQ{Plugin: "fake-dlq", WindowSize: c.dlqSize, WindowNackThreshold: c.dlqTh}}
 	w.pl.SetStatus(pipeline.StatusUserStopped)
 	rec := c.recovery
-	svc := NewService(log.Nop(), &rec, lConnectorService{w}, lProcessorService{}, lPluginService{w}, lPipelineService{w})
+	var procSvc ProcessorService = lProcessorService{}
+	if c.withProc {
+		w.procSvc = processor.NewService(log.Nop(), db, lProcRegistry{w})
+		if _, err := w.procSvc.Create(context.Background(), "proc1", "fake-proc", processor.Parent{ID: "pl", Type: processor.ParentTypePipeline}, processor.Config{Settings: map[string]string{}, Workers: 1}, processor.ProvisionTypeAPI, ""); err != nil {
+			verifFail("c13-processor-setup-failed")
+		}
+		w.procs = nil // the throwaway plugin Create dispenses does not count
+		w.pl.ProcessorIDs = []string{"proc1"}
+		procSvc = w.procSvc
+	}
+	svc := NewService(log.Nop(), &rec, lConnectorService{w}, procSvc, lPluginService{w}, lPipelineService{w})
 	svc.OnFailure(func(e FailureEvent) {
 		w.mu.Lock()
 		w.failures = append(w.failures, e)
